@@ -494,4 +494,198 @@ theorem new_rel (id : Nat) (r : Rule) (now : Nat) (h : 0 < r.statI) : RelB now (
   obtain ⟨hn, hL⟩ := rule_geometry_pos r h
   exact ⟨rfl, rfl, rfl, rfl, rfl, mk_R _ _ _ hn hL⟩
 
+/-! ## the listener log is a legal walk -/
+
+section walks
+variable {W : Type}
+
+theorem walk_append (s : St) (a b : List Tr) (s' : St) (h : walk s a = some s') : walk s (a ++ b) = walk s' b := by
+  induction a generalizing s with
+  | nil => simp [walk] at h; subst h; rfl
+  | cons t ts ih =>
+    simp only [walk, List.cons_append] at h ⊢
+    cases ht : applyTr s t with
+    | none => simp [ht] at h
+    | some s1 => simp only [ht] at h ⊢; exact ih s1 h
+
+theorem tryPass_walk (b : Brk W) (t : Nat) :
+    (tryPass b t).1.id = b.id ∧ (tryPass b t).1.rule = b.rule ∧ walk b.st (tryPass b t).2.2.1 = some (tryPass b t).1.st := by
+  unfold tryPass
+  cases hst : b.st <;> dsimp only
+  · exact ⟨rfl, rfl, by simp [walk, hst]⟩
+  · exact ⟨rfl, rfl, by simp [walk, hst]⟩
+  · split_ifs
+    · exact ⟨rfl, rfl, by simp [walk, applyTr]⟩
+    · exact ⟨rfl, rfl, by simp [walk, hst]⟩
+
+theorem onComplete_walk (ops : Rule → WinOps W) (b : Brk W) (now rt : Nat) (err : Bool) :
+    (onComplete ops b now rt err).1.id = b.id ∧ (onComplete ops b now rt err).1.rule = b.rule ∧
+      walk b.st (onComplete ops b now rt err).2 = some (onComplete ops b now rt err).1.st := by
+  unfold onComplete
+  dsimp only
+  cases (ops b.rule).record b.w now { bad := if isBad b.rule rt err = true then 1 else 0, total := 1 } with
+  | none => exact ⟨rfl, rfl, rfl⟩
+  | some p =>
+    dsimp only
+    cases hst : b.st <;> dsimp only <;> (try split_ifs) <;>
+      refine ⟨rfl, rfl, ?_⟩ <;> simp [walk, applyTr, hst]
+
+/-- `l'` arises from `l` by local steps of the individual breakers, each emitting callbacks under its own
+    id that form a walk from its old to its new state; `evs` is the concatenation in list order -/
+inductive LocalSteps : List (Brk W) → List (Brk W) → List Ev → Prop
+  | nil : LocalSteps [] [] []
+  | cons {b b' : Brk W} {trs : List Tr} {l l' : List (Brk W)} {evs : List Ev} :
+      b'.id = b.id → b'.rule = b.rule → walk b.st trs = some b'.st → LocalSteps l l' evs →
+      LocalSteps (b :: l) (b' :: l') (trs.map (Ev.mk b.id) ++ evs)
+
+theorem LocalSteps.refl (l : List (Brk W)) : LocalSteps l l [] := by
+  induction l with
+  | nil => exact .nil
+  | cons b l ih => exact LocalSteps.cons (trs := []) rfl rfl rfl ih
+
+theorem LocalSteps.ids {l l' : List (Brk W)} {evs : List Ev} (h : LocalSteps l l' evs) :
+    l'.map (·.id) = l.map (·.id) := by
+  induction h with
+  | nil => rfl
+  | cons h1 _ _ _ ih => simp only [List.map_cons, h1, ih]
+
+theorem checkPass_local (res : String) (t : Nat) (l : List (Brk W)) :
+    LocalSteps l ((checkPass res t l).1.map (·.1)) (checkPass res t l).2.2 := by
+  induction l with
+  | nil => exact .nil
+  | cons b bs ih =>
+    obtain ⟨h1, h2, h3⟩ := tryPass_walk b t
+    simp only [checkPass]
+    by_cases hr0 : b.rule.res = res
+    · rw [if_pos hr0]
+      by_cases hp : (tryPass b t).2.1 = true
+      · rw [if_pos hp]
+        exact LocalSteps.cons h1 h2 h3 ih
+      · rw [if_neg hp]
+        have := LocalSteps.cons h1 h2 h3 (LocalSteps.refl bs)
+        simpa [Function.comp_def] using this
+    · rw [if_neg hr0]
+      exact LocalSteps.cons (trs := []) rfl rfl rfl ih
+
+theorem rollback_local (lp : List (Brk W × Bool)) :
+    LocalSteps (lp.map (·.1)) (rollback lp).1 (rollback lp).2 := by
+  induction lp with
+  | nil => exact .nil
+  | cons p r ih =>
+    obtain ⟨b, hk⟩ := p
+    simp only [rollback, List.map_cons]
+    split_ifs with hc
+    · exact LocalSteps.cons (trs := [.toOpen .halfOpen .rollback]) rfl rfl (by simp [walk, applyTr, hc.2]) ih
+    · exact LocalSteps.cons (trs := []) rfl rfl rfl ih
+
+theorem completeAll_local (ops : Rule → WinOps W) (res : String) (now rt : Nat) (err : Bool) (l : List (Brk W)) :
+    LocalSteps l (completeAll ops res now rt err l).1 (completeAll ops res now rt err l).2 := by
+  induction l with
+  | nil => exact .nil
+  | cons b bs ih =>
+    obtain ⟨h1, h2, h3⟩ := onComplete_walk ops b now rt err
+    simp only [completeAll]
+    split_ifs
+    · exact LocalSteps.cons h1 h2 h3 ih
+    · exact LocalSteps.cons (trs := []) rfl rfl rfl ih
+
+theorem upd_self (m : Nat → St) (k : Nat) : upd m k (m k) = m := by
+  funext j; unfold upd; split_ifs with h
+  · rw [h]
+  · rfl
+
+theorem upd_upd (m : Nat → St) (k : Nat) (s1 s2 : St) : upd (upd m k s1) k s2 = upd m k s2 := by
+  funext j; unfold upd; split_ifs <;> rfl
+
+theorem replay_tagged (m : Nat → St) (k : Nat) (trs : List Tr) (s' : St) (h : walk (m k) trs = some s') :
+    replay m (trs.map (Ev.mk k)) = some (upd m k s') := by
+  induction trs generalizing m with
+  | nil =>
+    simp only [walk, Option.some.injEq] at h
+    subst h
+    simp [replay, upd_self]
+  | cons t ts ih =>
+    simp only [walk] at h
+    simp only [List.map_cons, replay]
+    cases ht : applyTr (m k) t with
+    | none => simp [ht] at h
+    | some s1 =>
+      simp only [ht] at h ⊢
+      have : walk ((upd m k s1) k) ts = some s' := by simpa [upd] using h
+      rw [ih (upd m k s1) this, upd_upd]
+
+theorem replay_append (m : Nat → St) (a b : List Ev) :
+    replay m (a ++ b) = (replay m a).bind fun m' => replay m' b := by
+  induction a generalizing m with
+  | nil => rfl
+  | cons e es ih =>
+    simp only [List.cons_append, replay]
+    cases applyTr (m e.id) e.tr with
+    | none => rfl
+    | some s' => exact ih _
+
+/-- the map agrees with the breakers' states -/
+def Agree (m : Nat → St) (l : List (Brk W)) : Prop := ∀ b ∈ l, m b.id = b.st
+
+theorem replay_local {l l' : List (Brk W)} {evs : List Ev} (h : LocalSteps l l' evs) (m : Nat → St)
+    (nd : (l.map (·.id)).Nodup) (ag : Agree m l) :
+    ∃ m', replay m evs = some m' ∧ Agree m' l' ∧ ∀ k, k ∉ l.map (·.id) → m' k = m k := by
+  induction h generalizing m with
+  | nil => exact ⟨m, rfl, fun _ hb => by simp at hb, fun _ _ => rfl⟩
+  | @cons b b' trs l l' evs h1 h2 h3 hl ih =>
+    simp only [List.map_cons, List.nodup_cons] at nd
+    obtain ⟨hnot, ndl⟩ := nd
+    have hb : m b.id = b.st := ag b (List.mem_cons_self ..)
+    have hrt := replay_tagged m b.id trs b'.st (by rw [hb]; exact h3)
+    have ag1 : Agree (upd m b.id b'.st) l := by
+      intro c hc
+      have hne : c.id ≠ b.id := by
+        intro he; apply hnot; rw [← he]; exact List.mem_map_of_mem hc
+      simp only [upd, hne, if_false]
+      exact ag c (List.mem_cons_of_mem _ hc)
+    obtain ⟨m', hm', agm', frm⟩ := ih (upd m b.id b'.st) ndl ag1
+    refine ⟨m', ?_, ?_, ?_⟩
+    · rw [replay_append, hrt]; exact hm'
+    · intro c hc
+      rcases List.mem_cons.mp hc with rfl | hc
+      · rw [h1, frm b.id hnot]; simp [upd]
+      · exact agm' c hc
+    · intro k hk
+      simp only [List.map_cons, List.mem_cons, not_or] at hk
+      rw [frm k hk.2]
+      simp [upd, hk.1]
+
+/-- one op of the system: breakers take local steps, callbacks as shown in the output -/
+theorem step_local (ops : Rule → WinOps W) (s : Sys W) (o : Op) :
+    ∃ mid e1 e2, (step ops s o).2.evs = e1 ++ e2 ∧ LocalSteps s.brs mid e1 ∧ LocalSteps mid (step ops s o).1.brs e2 := by
+  cases o with
+  | clock t => exact ⟨s.brs, [], [], rfl, LocalSteps.refl _, LocalSteps.refl _⟩
+  | entry id res =>
+    simp only [step, doEntry]
+    cases hd : (checkPass res s.now s.brs).2.1 with
+    | none =>
+      exact ⟨_, _, [], (List.append_nil _).symm, checkPass_local res s.now s.brs, LocalSteps.refl _⟩
+    | some k =>
+      exact ⟨_, _, _, rfl, checkPass_local res s.now s.brs, rollback_local _⟩
+  | exit id err =>
+    simp only [step, doExit]
+    cases hf : s.live.find? (fun x => decide (x.id = id)) with
+    | none => exact ⟨s.brs, [], [], rfl, LocalSteps.refl _, LocalSteps.refl _⟩
+    | some e =>
+      exact ⟨_, _, [], (List.append_nil _).symm, completeAll_local ops e.res s.now _ err s.brs, LocalSteps.refl _⟩
+
+theorem step_replay (ops : Rule → WinOps W) (s : Sys W) (o : Op) (m : Nat → St)
+    (nd : (s.brs.map (·.id)).Nodup) (ag : Agree m s.brs) :
+    ∃ m', replay m (step ops s o).2.evs = some m' ∧ Agree m' (step ops s o).1.brs ∧
+      ((step ops s o).1.brs.map (·.id)) = s.brs.map (·.id) := by
+  obtain ⟨mid, e1, e2, he, l1, l2⟩ := step_local ops s o
+  obtain ⟨m1, hm1, ag1, _⟩ := replay_local l1 m nd ag
+  have nd1 : (mid.map (·.id)).Nodup := by rw [l1.ids]; exact nd
+  obtain ⟨m2, hm2, ag2, _⟩ := replay_local l2 m1 nd1 ag1
+  refine ⟨m2, ?_, ag2, ?_⟩
+  · rw [he, replay_append, hm1]; exact hm2
+  · rw [l2.ids, l1.ids]
+
+end walks
+
 end Sentinel.CB
